@@ -78,3 +78,84 @@ func c11Has(rec *verifRecorder, marker string) bool {
 	return false
 }
 
+
+type c11RootsCall struct {
+	err  error
+	done chan struct{}
+}
+
+func (c *c11RootsCall) finished() bool {
+	select {
+	case <-c.done:
+		return true
+	default:
+	}
+	return false
+}
+
+// c11StreamWriteFailure: the peer of a session's listening stream goes away while the frame of a
+// server-issued request is being written (the Write fails at the id line, at the data line or at the closing
+// blank line, taking no byte or one): that request ends with an error and leaves nothing pending, and what the
+// server addresses to the session afterwards - a notification, a second request whose context is then
+// cancelled - returns as well; once the stream handler has returned no goroutine or table entry is left.
+func c11StreamWriteFailure() {
+	vRandConcrete(true)
+	srv := NewServer("srv", "1.0", WithPostSSEEnabled(false))
+	calls := []*c11RootsCall{{done: make(chan struct{})}, {done: make(chan struct{})}}
+	ncall := 0
+	srv.RegisterTool(NewTool("roots"), func(ctx context.Context, r *CallToolRequest) (*CallToolResult, error) {
+		c := calls[ncall]
+		ncall++
+		_, c.err = srv.ListRoots(ctx)
+		close(c.done)
+		return NewTextResult("ok"), nil
+	})
+	a := c11Session(srv)
+	vAssume(a != "")
+	base := vGoroutines()
+	sa := c11Open(srv, a, nil)
+	vAssume(c11Wait(sa.flushed))
+	sa.rec.failFrom = sa.rec.writes + 1 + vChoice("failAtWrite", 3)
+	sa.rec.failShort = vBool("shortWrite")
+	post := func(ctx context.Context) {
+		rec := newVerifRecorder()
+		req := verifRequest("POST", "/mcp", []byte(`{"jsonrpc":"2.0","id":7,"method":"tools/call","params":{"name":"roots"}}`),
+			"Accept", "application/json", "Content-Type", "application/json", "Mcp-Session-Id", a)
+		srv.httpHandler.ServeHTTP(rec, req.WithContext(ctx))
+	}
+	pending := func() int {
+		srv.httpHandler.responseManager.mutex.RLock()
+		defer srv.httpHandler.responseManager.mutex.RUnlock()
+		return len(srv.httpHandler.responseManager.pendingRequests)
+	}
+	go post(context.Background())
+	vQuiesce()
+	vAssert("request-with-failed-write-ends", calls[0].finished())
+	if calls[0].finished() {
+		vAssert("request-with-failed-write-reports-error", calls[0].err != nil)
+	}
+	vAssert("nothing-left-pending", pending() == 0)
+	notified := make(chan struct{})
+	go func() {
+		srv.SendNotification(a, "n/x", map[string]interface{}{"m": "M0"})
+		close(notified)
+	}()
+	vQuiesce()
+	vAssert("later-notification-returns", c11Wait(notified))
+	ctx, cancel := context.WithCancel(context.Background())
+	go post(ctx)
+	vQuiesce()
+	cancel()
+	vQuiesce()
+	vAssert("later-request-ends-with-its-context", calls[1].finished())
+	vAssert("nothing-left-pending-afterwards", pending() == 0)
+	sa.cancel()
+	vAssert("stream-handler-returns", c11Wait(sa.done))
+	vQuiesce()
+	srv.httpHandler.getSSEConnectionsLock.RLock()
+	left := len(srv.httpHandler.getSSEConnections)
+	srv.httpHandler.getSSEConnectionsLock.RUnlock()
+	vAssert("no-stream-entry-left", left == 0)
+	vAssert("no-goroutine-left-behind", vGoroutines() <= base)
+	vReach("end")
+}
